@@ -210,7 +210,7 @@ def run_task(t):
                 letters = dict(zip(cats, 'soamid'))
                 if mode == 'pos': flags = ['-' + letters[c] for c in cats if c not in ignored]
                 else: flags = ['-' + letters[c].upper() for c in cats if c in ignored]
-                ns = A._build_arg_parser().parse_args(flags)
+                ns = A._build_arg_parser().parse_args(flags + ['--no-color'])
                 process_diff_flags(ns)
             elif mode == 'cfg':
                 N.set_notebook_diff_ignores(t['mapping'])
@@ -224,7 +224,19 @@ def run_task(t):
             except Exception as e:
                 pr = exc_info(e)
             differs = {k: getattr(v, '__name__', repr(v)) for k, v in dict.items(N.notebook_differs)}
-            return {'ok': dj, 'patched': pr, 'table_keys': sorted(differs), 'oracles': orc}
+            out = {'ok': dj, 'patched': pr, 'table_keys': sorted(differs), 'oracles': orc}
+            if t.get('render') and mode in ('pos', 'neg'):
+                # what `nbdiff <flags> a b` prints: the renderer has its own suppression by path
+                import io, re
+                from nbdime.args import prettyprint_config_from_args
+                from nbdime.prettyprint import pretty_print_notebook_diff
+                try:
+                    buf = io.StringIO()
+                    pretty_print_notebook_diff('a.ipynb', 'b.ipynb', as_nb(t['a']), d, prettyprint_config_from_args(ns, out=buf))
+                    out['render_headings'] = re.findall(r'^## (\w+(?: before)?) (/\S*?):?$', buf.getvalue(), re.M)
+                except Exception as e:
+                    out['render_error'] = exc_info(e)
+            return out
         finally:
             pass
     if op == 'history':
